@@ -8,20 +8,25 @@ comparisons), including the `(RuneError, 1)` convention for invalid or truncated
 -/
 namespace WaVerif.C21
 
+/-- number of UTF-8 bytes of the scalar value `n` -/
+def utf8SizeN (n : Nat) : Nat :=
+  if n < 0x80 then 1 else if n < 0x800 then 2 else if n < 0x10000 then 3 else 4
+
+/-- UTF-8 encoding of the scalar value `n` -/
+def utf8EncN (n : Nat) : List Nat :=
+  if n < 0x80 then [n]
+  else if n < 0x800 then [0xC0 + n / 64, 0x80 + n % 64]
+  else if n < 0x10000 then [0xE0 + n / 4096, 0x80 + n / 64 % 64, 0x80 + n % 64]
+  else [0xF0 + n / 262144, 0x80 + n / 4096 % 64, 0x80 + n / 64 % 64, 0x80 + n % 64]
+
 /-- number of UTF-8 bytes of a scalar value -/
-def utf8Size (c : Char) : Nat :=
-  if c.toNat < 0x80 then 1 else if c.toNat < 0x800 then 2 else if c.toNat < 0x10000 then 3 else 4
+def utf8Size (c : Char) : Nat := utf8SizeN c.toNat
 
 /-- number of UTF-16 code units of a scalar value (2 = surrogate pair) -/
 def utf16Size (c : Char) : Nat := if c.toNat < 0x10000 then 1 else 2
 
 /-- UTF-8 encoding of one scalar value -/
-def utf8Enc (c : Char) : List Nat :=
-  let n := c.toNat
-  if n < 0x80 then [n]
-  else if n < 0x800 then [0xC0 + n / 64, 0x80 + n % 64]
-  else if n < 0x10000 then [0xE0 + n / 4096, 0x80 + n / 64 % 64, 0x80 + n % 64]
-  else [0xF0 + n / 262144, 0x80 + n / 4096 % 64, 0x80 + n / 64 % 64, 0x80 + n % 64]
+def utf8Enc (c : Char) : List Nat := utf8EncN c.toNat
 
 /-- UTF-8 encoding of a text -/
 def utf8 : List Char → List Nat
